@@ -51,6 +51,7 @@ OUTSIDE = ['claims signed by channels, channel keys, purchases, claim shapes oth
 TECHNIQUE = ('bounded symbolic execution of the real Python source (symvm): the shape of the server history, the staging and the schedule of the '
              'concurrent update tasks are solver-chosen inputs, z3 decides which choices exist, the decision tree is explored exhaustively and every '
              'path is replayed natively; sqlite runs for real on an in-memory database')
+BUDGET_S = {'thorough': 5400}        # runaway guard only (the claims/supports race jobs add about ten minutes)
 VM = [None]
 DEBUG = bool(__import__('os').environ.get('C09_DEBUG'))
 SCHED = [None]
